@@ -90,7 +90,7 @@ func genRows(r *simrt.Rand, nextRid *int64, n int, dupPool *[]RowSpec) []RowSpec
 func genC09(r *simrt.Rand, tier string) any {
 	p := &C09Plan{DB: []string{"db", "db2", "prod"}[r.Intn(3)], Meas: []string{"cpu", "cpu_total", "m"}[r.Intn(3)]}
 	p.Knobs = PodKnobs{HourlyMinFiles: []int{2, 3, 5}[r.Intn(3)], MaxFilesPerBatch: []int{2, 3, 4, 6, 30, 30}[r.Intn(6)], MaxConcurrent: 1 + r.Intn(2),
-		DailyMinFiles: 2 + r.Intn(2), ConsumedHook: []string{"", "", "", "ok", "err"}[r.Intn(5)], NoOrderBy: r.Chance(15)}
+		DailyMinFiles: 2 + r.Intn(2), ConsumedHook: []string{"", "", "", "ok", "err"}[r.Intn(5)], NoOrderBy: r.Chance(15), ObjStore: r.Chance(15)}
 	p.AgeHours = 3 + r.Intn(40)
 	if r.Chance(25) {
 		p.Knobs.Daily = true
@@ -874,9 +874,10 @@ func stepPoint(permille, winSteps int64) faultPoint {
 	return faultPoint{Key: fmt.Sprintf("step@%d", permille), Kind: "step", Idx: 1 + permille*(winSteps-1)/1000, Op: "sched-step", Label: "at-scheduling-step"}
 }
 
-// lastViolKey remembers the fault point of the most recent violation as a
-// hint for the shrinker (which only sees plans); it never influences a run.
-var lastViolKey string
+// violKeys remembers the fault points at which the most recent run found its
+// violations, as a hint for the shrinker (which only sees plans); it never
+// influences a run.
+var violKeys []string
 
 func familyWord(f string) string {
 	switch f {
@@ -962,6 +963,8 @@ func runC09(planAny any, cfg simrt.Config) *simkit.Outcome {
 		twin.winSteps = twin.jobSteps[w.job]
 	}
 	pts := w.faultPoints(twin)
+	nViol := 0
+	violKeys = violKeys[:0]
 	for _, fp := range pts {
 		fp := fp
 		ep := w.episode(&fp, twin)
@@ -998,10 +1001,16 @@ func runC09(planAny any, cfg simrt.Config) *simkit.Outcome {
 			rule := fmt.Sprintf("%s.%s.%s", v.rule, familyWord(p.Family), label)
 			out.Violate(rule, "fault point %s (index %d in the %s window of node %s; durable before it: %s): %s", fp.Key, fp.Idx, p.Family, w.node, fp.Label, v.msg)
 		}
-		if len(out.Violations) > 0 {
-			out.Tail = ep.res.Tail
-			lastViolKey = fp.Key
-			break
+		if len(ep.verdicts) > 0 {
+			// keep enumerating: a violation at one point must not hide the
+			// later points of the same plan
+			if len(out.Tail) == 0 || nViol < len(out.Violations) {
+				out.Tail = ep.res.Tail
+			}
+			if nViol < len(out.Violations) {
+				violKeys = append(violKeys, fp.Key)
+			}
+			nViol = len(out.Violations)
 		}
 	}
 	out.Hash, out.Steps = hash, steps
@@ -1020,10 +1029,12 @@ func shrinkC09(planAny any) []any {
 		q.GapS = append([]int(nil), p.GapS...)
 		return &q
 	}
-	if len(p.Only) != 1 && p.Family != "none" && lastViolKey != "" {
-		q := cp()
-		q.Only = []string{lastViolKey}
-		out = append(out, q)
+	if len(p.Only) != 1 && p.Family != "none" {
+		for _, k := range violKeys {
+			q := cp()
+			q.Only = []string{k}
+			out = append(out, q)
+		}
 	}
 	if len(p.Late) > 0 {
 		q := cp()
